@@ -59,7 +59,7 @@ def run(ctx):
     ctx.validate_traces_all("Conc", "Conc_trace.cfg", tr, keyfn=keyfn, max_rejects=30, heap="12g",
                             groupfn=lambda h: ("aliasing",) if h.get("sr_decode_then_in_place_crypt") else ("indep", json.dumps(h.get("progs"))),
                             what="Conc.tla rejected a replayed schedule / race-detector run")
-    ctx.cov["bounds"] = {"goroutines": 2 if q else 3, "programs": 14 if q else 5, "inputs": "clear fragmented file, the same encrypted, a progressive corpus file, two kitchen-sink files with one instance of every BoxLayouts.tla box shape (different field values)", "ops_per_program": 3, "schedules": len(r.exported),
+    ctx.cov["bounds"] = {"goroutines": 2 if q else 3, "programs": 16 if q else 5, "inputs": "clear fragmented file, the same encrypted, a progressive corpus file, two kitchen-sink files with one instance of every BoxLayouts.tla box shape (different field values)", "ops_per_program": 3, "schedules": len(r.exported),
                          "race_runs": races, "trace_events": s["extra"]["events"]}
     ctx.cov["rule"] = ("schedules = every call-level interleaving of every program tuple enumerated by Conc.tla, replayed deterministically with "
                        "digests of shared inputs, registries and all live objects after every call; plus randomised real-goroutine runs of the "
